@@ -37,7 +37,7 @@ def _gen(rng, n_ops):
         elif x < 0.16:
             ops.append({"ev": "sleep", "ms": rng.choice([2, 3, 5, 12])})
         elif x < 0.24:
-            ops.append({"ev": rng.choice(["touch", "oldmtime"]), "f": rng.choice(list(files))})
+            ops.append({"ev": rng.choice(["touch", "oldmtime", "futuremtime"]), "f": rng.choice(list(files))})
         elif x < 0.30 and (style != "late_trust" or i > n_ops // 2):
             cand = [q for q in ids if (files.get(q) or "a") == ("b" if style == "trust_b" else "a")] or ids
             ops.append({"ev": "add", "f": rng.choice(cand)})
@@ -76,7 +76,11 @@ def scripted():
           {"ev": "create", "f": 3, "d": "a"}, {"ev": "sleep", "ms": 4}, {"ev": "touch", "f": 4}, {"ev": "sleep", "ms": 4},
           {"ev": "create", "f": 5, "d": "a"}, {"ev": "observe", "f": 5}, {"ev": "observe", "f": 3}, {"ev": "observe", "f": 4},
           {"ev": "observe", "f": 1}, {"ev": "get_unlocked"}]
-    return [s1, s2]
+    # a file whose modification time lies in the future: only the change-time is evidence
+    s3 = [{"ev": "create", "f": 1, "d": "a"}, {"ev": "add", "f": 1}, {"ev": "sleep", "ms": 3}, {"ev": "create", "f": 2, "d": "a"},
+          {"ev": "futuremtime", "f": 2}, {"ev": "observe", "f": 2}, {"ev": "get_unlocked"}, {"ev": "oldmtime", "f": 1},
+          {"ev": "observe", "f": 1}, {"ev": "get", "off": 0}]
+    return [s1, s2, s3]
 
 
 def run_nfs(res, work, tier, seed):
@@ -122,12 +126,31 @@ def run_nfs(res, work, tier, seed):
         res.data["notes"].append("only one writable device in this sandbox: untrusted-device actions degrade to the same device")
     tv = tlc.validate_trace("NfsTrace", "NfsTrace.cfg", trace, os.path.join(work, "tv"), timeout=3000)
     res.add_tv(tv, {r["run"]: r for r in runs}, "nfs", "random call sequences on two real devices", crash_props=("C19",))
+    nontrivial = 0
+    with open(trace) as f:
+        changes, untrusted, prev, tr = 0, False, 0, set()
+        for line in f:
+            e = json.loads(line)
+            if e["ev"] == "reset":
+                changes, untrusted, prev, tr = 0, False, 0, set()
+            elif e["ev"] == "end":
+                nontrivial += 1 if (changes >= 2 and untrusted) else 0
+            else:
+                if e.get("base", 0) != prev:
+                    changes += 1
+                    prev = e["base"]
+                fr = [x for x in e.get("files", []) if x["f"] == e.get("f")]
+                if e["ev"] == "add" and e["err"] == "" and fr:
+                    tr.add(fr[0]["dev"])
+                if e["ev"] == "observe" and fr and fr[0]["dev"] not in tr:
+                    untrusted = True
     res.data["witness"]["C19"] = {
-        "count": len(runs),
-        "rule": "distinct call sequences of the real nfs_voucher module, each in its own process, over files on two real devices "
+        "count": nontrivial,
+        "rule": "call sequences (of %d) in which the base time changed at least twice and a file on a not (yet) trusted device "
+                "was observed; " % len(runs) + "call sequences of the real nfs_voucher module, each in its own process, over files on two real devices "
                 "(ext work directory and tmpfs /dev/shm) created milliseconds apart, with touches, old modification times, symlinks "
                 "re-pointed across devices, trust established early / late / on either device, explicit `now` values on both sides of "
-                "the refresh threshold; %d random sequences of %d calls + 2 scripted ones" % (n_runs, n_ops)}
+                "the refresh threshold; %d random sequences of %d calls + 3 scripted ones" % (n_runs, n_ops)}
     res.data["samples"]["C19"] = [runs[0]["ops"], runs[-1]["ops"][:15]]
     os.remove(trace)
 
